@@ -44,6 +44,15 @@ func scenario(name string, K, P int, sizes []int, pb int) vx.Scenario {
 	return scenarioC(name, K, P, sizes, pb, false)
 }
 
+// hangUp: the first poll of poller 0 is made by an agent that hangs up (its request context is cancelled at
+// a point the explorer picks) but still reads what it is sent, as a half-closing client does.
+var hangUp = map[string]bool{}
+
+func scenarioH(name string, K, P int, sizes []int, pb int) vx.Scenario {
+	hangUp[name] = true
+	return scenarioC(name, K, P, sizes, pb, false)
+}
+
 func scenarioC(name string, K, P int, sizes []int, pb int, cancelFirst bool) vx.Scenario {
 	return vx.Scenario{
 		// the cancellation scenarios have two more threads; they are explored delay-bounded
@@ -96,8 +105,10 @@ func scenarioC(name string, K, P int, sizes []int, pb int, cancelFirst bool) vx.
 				})
 			}
 			for j := 0; j < P; j++ {
+				j := j
 				s.Thread(fmt.Sprintf("poller%d", j), func() {
 					vh.Until("handler", unsafe.Pointer(w), func() bool { return w.handler != nil })
+					first := true
 					for {
 						vs.Touch(unsafe.Pointer(w))
 						if w.served >= K {
@@ -105,6 +116,15 @@ func scenarioC(name string, K, P int, sizes []int, pb int, cancelFirst bool) vx.
 						}
 						r := httptest.NewRequest("GET", "/agent/pending", nil)
 						r.Header.Set(utils.HeaderBackendID, "b")
+						if hangUp[name] && j == 0 && first {
+							ctx, cancel := vctx.WithCancel(r.Context())
+							r = r.WithContext(ctx)
+							vs.Go(func() {
+								vs.Point("the polling agent hangs up", nil)
+								cancel()
+							})
+						}
+						first = false
 						rec := vh.NewRec()
 						w.handler.ServeHTTP(rec, r)
 						var ids []string
@@ -279,12 +299,15 @@ func main() {
 					scenario("K3P2", 3, 2, []int{5000, 0, 1}, 2),
 					scenarioC("K2P1-first-client-cancels", 2, 1, []int{10, 10}, 3, true),
 					scenarioC("K3P1-first-client-cancels", 3, 1, []int{10, 0, 10}, 0, true),
+					scenarioH("K1P2-first-poller-hangs-up", 1, 2, []int{10}, 3),
+					scenarioH("K2P2-first-poller-hangs-up", 2, 2, []int{10, 0}, 1),
 				}
 			}
 			return []vx.Scenario{
 				scenario("K2P1", 2, 1, []int{0, 5000}, 2),
 				scenario("K2P2", 2, 2, []int{1, 0}, 1),
 				scenarioC("K2P1-first-client-cancels", 2, 1, []int{10, 10}, 2, true),
+				scenarioH("K1P2-first-poller-hangs-up", 1, 2, []int{10}, 2),
 			}
 		},
 	})
